@@ -296,4 +296,33 @@ theorem no_panic {A0 : Abs} : ∀ (log : Log) (A : Abs), Reach A0 log A → ∀ 
       · rw [hm] at hs; exact hs
       · exact no_panic older A1 hr e' he' m hm
 
+/-- a composite node as `NewComposite` builds it stands for the unstarted flat succession of its parts -/
+theorem built_shRel (now0 : Int) (t : Tree) (d : Nat) (hd : t.depth ≤ d + 1) (c : Comp (Lvl d))
+    (hb : build now0 (d + 1) t = .ok (.inr c)) (clk : Int) :
+    ShRel (lvlSem d) ⟨c.cs, c.la, c.started⟩ (.unstarted (flat t)) clk := by
+  have hU := build_U now0 (d + 1) t (.inr c) hd hb
+  obtain ⟨c0, rest, p, ps, rfl, hc, hU', hfl⟩ := (show compU (lvlSem d) c (flat t) from hU)
+  exact ⟨c0, rest, p, ps, rfl, rfl, hc, hU', hfl⟩
+
+
+theorem reach_split {A0 : Abs} : ∀ (newer older : Log) (A : Abs), Reach A0 (newer ++ older) A →
+    ∃ A1, Reach A0 older A1 ∧ Reach A1 newer A
+  | [], older, A, h => ⟨A, h, rfl⟩
+  | e :: newer, older, A, ⟨A2, hr, hs⟩ => by
+      obtain ⟨A1, h1, h2⟩ := reach_split newer older A2 hr
+      exact ⟨A1, h1, A2, h2, hs⟩
+
+
+theorem flatList_isLoop (to step : Nat) (dur : Int) : ∀ (fuel i : Nat),
+    ∃ k, flatList (instanceStepLoop to step dur fuel i) =
+      (List.replicate k [Part.fin [] dur, Part.fin (List.replicate step 0) 0]).flatten
+  | 0, _ => ⟨0, rfl⟩
+  | fuel + 1, i => by
+      simp only [instanceStepLoop]
+      split
+      · obtain ⟨k, hk⟩ := flatList_isLoop to step dur fuel (i + step)
+        exact ⟨k + 1, by simp [flatList, flat, hk, List.replicate_succ]⟩
+      · exact ⟨0, rfl⟩
+
+
 end Pandora.Proofs.C02Reach
